@@ -837,6 +837,24 @@ class Interp:
                     if name == 'skip':
                         return ('iter', xs[args[0]:])
                     return opt(xs[args[0]] if 0 <= args[0] < len(xs) else None)
+                if name in ('try_fold', 'fold') and len(args) == 2 and isinstance(args[1], tuple) and args[1] and args[1][0] in ('closure', 'recfn', 'pyfn'):
+                    acc = args[0]
+                    for x in xs:
+                        r = self.apply(args[1], [acc, x])
+                        if name == 'fold':
+                            acc = r
+                            continue
+                        if isinstance(r, tuple) and len(r) == 3 and r[0] == 'ctor' and r[1] in ('core::result::Result::Ok', 'core::option::Option::Some', 'core::ops::control_flow::ControlFlow::Continue'):
+                            acc = r[2][0]
+                        elif isinstance(r, tuple) and len(r) >= 2 and r[0] == 'ctor' and r[1] in ('core::result::Result::Err', 'core::option::Option::None', 'core::ops::control_flow::ControlFlow::Break'):
+                            return r            # the first failure ends the fold and is its result
+                        else:
+                            raise Unanalysable('try_fold with a step result the evaluator does not model')
+                    if name == 'fold':
+                        return acc
+                    rt = e.get('t') or ''
+                    wrap = 'core::option::Option::Some' if rt.startswith('core::option::Option') else 'core::ops::control_flow::ControlFlow::Continue' if 'ControlFlow' in rt else 'core::result::Result::Ok'
+                    return ('ctor', wrap, (acc,))
                 if len(args) == 1 and isinstance(args[0], tuple) and args[0] and args[0][0] in ('closure', 'recfn', 'ctor'):
                     c = args[0]
                     if name == 'filter':
